@@ -79,3 +79,21 @@ func VH_C05_badlen() {
 	err := RequirePublicIP(net.IP(b))
 	verifAssert("C05.badlen.rejected", err != nil)
 }
+
+// the very first destination checks of a process run at the same time (the first connections
+// after start-up): each of them is decided against the complete policy
+func VH_C05_concurrent_first_use() {
+	verifRaceDetect(true)
+	verifSched(2)
+	ips := []net.IP{{100, 64, 0, 1}, {192, 168, 1, 1}, net.ParseIP("fd00::1")}
+	a := ips[verifChoice("first", 3)]
+	b := ips[verifChoice("second", 3)]
+	var ea, eb error
+	done := make(chan struct{}, 2)
+	go func() { ea = RequirePublicIP(a); done <- struct{}{} }()
+	go func() { eb = RequirePublicIP(b); done <- struct{}{} }()
+	<-done
+	<-done
+	verifAssert("C05.first-use.both-refused", ea != nil && eb != nil)
+	verifReach("C05.first-use.done", true)
+}
